@@ -51,6 +51,9 @@ static inline void rxv_ivec8_push(rxv_ivec8* v, int x) { __CPROVER_assert(v->siz
 static inline void rxv_ivec8_clear(rxv_ivec8* v) { v->size = 0; }
 static inline size_t rxv_ivec8_size(const rxv_ivec8* v) { return v->size; }
 static inline int rxv_ivec8_at(const rxv_ivec8* v, size_t i) { __CPROVER_assert(i < v->size, "rxv_ivec8 index in range"); return v->item[i]; }
+/* stand-in for a vector of uint64_t that is only indexed (reciprocal cache): base pointer + element count */
+typedef struct rxv_u64vec { const uint64_t* data; size_t size; } rxv_u64vec;
+static inline uint64_t rxv_u64vec_at(const rxv_u64vec* v, size_t i) { __CPROVER_assert(i < v->size, "rxv_u64vec index in range"); return v->data[i]; }
 typedef struct rxv_string { const char* data; size_t size; unsigned long long id; /* abstract identity of the byte string: equal ids <=> equal strings */ } rxv_string;
 #define rxv_string_eq(a, b) ((a)->id == (b)->id)
 /* TRUSTED abstraction of the C++ standard string (suites using it say so): the identity of a byte string is an uninterpreted function of
@@ -1132,6 +1135,11 @@ class Translator:
             self.fire("auto&")
             name, expr = mo.group(2), mo.group(3)
             self._local_refs.append(name)
+            # a reference bound to a conditional lvalue (C++ only): & is distributed over the two arms, `&(c ? a : b)` is not C
+            cm = re.match(r"^\s*\((.*)\)\s*\?\s*([\w.\->\[\]]+)\s*:\s*([\w.\->\[\]]+)\s*$", expr, re.S)
+            if cm:
+                self.fire("reference to conditional lvalue -> conditional of addresses")
+                return "%s__typeof__(%s)* %s = &(*((%s) ? &(%s) : &(%s)));" % (mo.group(1) or "", cm.group(2), name, cm.group(1), cm.group(2), cm.group(3))
             return "%s__typeof__(%s)* %s = &(%s);" % (mo.group(1) or "", expr, name, expr)
         self._local_refs = []
         b = re.sub(r"\b(const\s+)?auto\s*&\s*(\w+)\s*=\s*([^;]+);", auto_ref, b)
@@ -1245,7 +1253,7 @@ class Translator:
                 if name in locals_:
                     continue
                 # a local declaration with the same name shadows the member
-                if re.search(r"\b(?:int|unsigned|uint\d+_t|int\d+_t|size_t|char|auto|\w+_t|\w+\s*\*)\s+%s\s*[=;,\[]" % re.escape(name), b):
+                if re.search(r"\b(?:int|unsigned|uint\d+_t|int\d+_t|size_t|char|auto|\w+_t|[A-Z]\w*|\w+\s*\*)\s+%s\s*[=;,\[]" % re.escape(name), b):
                     self.fire("member shadowed by local (left alone)")
                     continue
                 b, k = re.subn(r"(?<![\w.>:])%s\b(?!\s*::)" % re.escape(name), "self->%s" % name, b)
